@@ -279,6 +279,16 @@ Definition asked_keys (merged : schema) (s : schema) : list (string * string) :=
         end) (t_fields t))
     else []) s).
 
+(** validateFederatedObjects (schema.go:78-118): an object (other than Query / Mutation) that some service
+    federates (has _federation on it) is federated by every service that has it. *)
+Definition federated_somewhere (per : list (string * schema)) (obj : string) : bool :=
+  existsb (fun sv => existsb (fun t => String.eqb (t_name t) obj && type_has_field t "_federation") (snd sv)) per.
+Definition federated_everywhere (per : list (string * schema)) (obj : string) : bool :=
+  forallb (fun sv => forallb (fun t => negb (String.eqb (t_name t) obj) || type_has_field t "_federation") (snd sv)) per.
+Definition fedobjs_ok (per : list (string * schema)) (merged : schema) : bool :=
+  forallb (fun mt => String.eqb (t_name mt) "Query" || String.eqb (t_name mt) "Mutation" ||
+                     negb (federated_somewhere per (t_name mt)) || federated_everywhere per (t_name mt)) merged.
+
 Definition fedkeys_ok (per : list (string * schema)) (merged : schema) : bool :=
   forallb (fun sv => forallb (fun ok => key_exposed per (fst ok) (snd ok)) (asked_keys merged (snd sv))) per.
 
@@ -478,7 +488,8 @@ Record case := mk_case {
   c_field_services : list (string * string * list string);  (* (type, field, sorted services) from ConvertVersionedSchemas *)
   c_queries : list (list sel * list (string * string * bool))
       (* query, and for (service, version) whether PrepareQuery on that version's built schema accepted it *);
-  c_fedkeys : nat   (* ConvertVersionedSchemas: 1 = accepted, 2 = refused with "Invalid federation key", 0 = anything else *)
+  c_fedkeys : nat   (* ConvertVersionedSchemas: 1 = accepted, 2 = refused with "Invalid federation key",
+                       3 = refused with "... exists on another server and is not federated", 0 = anything else *)
 }.
 
 Definition opt_json_eqb (a b : option json) : bool :=
@@ -520,11 +531,15 @@ Definition check_case (c : case) : list nat :=
    then [] else [3]) ++
   (match c_fedkeys c, process_versions ss with
    | 1, Some per => match merge_slice Union (map snd per) with
-                    | Some m => if fedkeys_ok per m then [] else [4]
+                    | Some m => if fedobjs_ok per m && fedkeys_ok per m then [] else [4]
                     | None => []
                     end
    | 2, Some per => match merge_slice Union (map snd per) with
-                    | Some m => if fedkeys_ok per m then [4] else []
+                    | Some m => if fedobjs_ok per m && negb (fedkeys_ok per m) then [] else [4]
+                    | None => []
+                    end
+   | 3, Some per => match merge_slice Union (map snd per) with
+                    | Some m => if fedobjs_ok per m then [4] else []
                     | None => []
                     end
    | _, _ => []
